@@ -1690,7 +1690,7 @@ fn gen_cases(rng: &mut Rng, tier: Tier) -> Vec<Value> {
     // fourth stream: tours with TRANSIT stops (a required break taken on the road). Outside the checker model; judged by the
     // breach clause only: where the checker accepts the solver's document, it rejects the document with the arrival at the
     // transit stop moved inside the break
-    let n_transit = if tier == Tier::Thorough { 400 } else { 64 };
+    let n_transit = if tier == Tier::Thorough { 1200 } else { 200 };
     let mut found = 0;
     let mut tries = 0;
     while found < n_transit && tries < n_transit * 12 {
